@@ -1,7 +1,7 @@
 (* Proofs/BitsLemmas.v — specifications of the primitive (single word) bit
    operations of Prim.v, and value-level facts used by Proofs/Bits.v. *)
 From Bnum Require Import Base Prim.
-From Bnum.Proofs Require Import BitAddr.
+From Bnum.Proofs Require Import BitAddrC06.
 
 (* ---------- powers of two ---------- *)
 
